@@ -581,12 +581,19 @@ func c03r5(p *Program, r *Report) {
 		if fi == nil {
 			continue
 		}
+		fi = writerDelegate(p, fi)
 		info := fi.Pkg.TypesInfo
 		first := ""
 		lenArg := false
 		inspectNoLit(fi.Decl.Body, func(x ast.Node) bool {
 			if c, ok := x.(*ast.CallExpr); ok && first == "" {
 				n := calleeName(info, c)
+				// the package-level appendX(buf, v) is the same primitive as the framer's writeX(v)
+				if strings.HasPrefix(n, "append") && len(n) > 6 && len(c.Args) == 2 && p.Func("(*framer).write"+n[6:]) != nil {
+					first = "(*framer).write" + n[6:]
+					s := exprStr(c.Args[1])
+					lenArg = strings.Contains(s, "len(") || strings.Contains(s, "-1")
+				}
 				if strings.HasPrefix(n, "(*framer).write") {
 					first = n
 					if len(c.Args) == 1 {
@@ -614,15 +621,25 @@ func c03r5(p *Program, r *Report) {
 		r.Check(ok, fi.Decl, "(*framer).writeUnset writes [int] -2", "-2", "the 'not set' marker is not the [int] -2 of the specification")
 	}
 	if fi := r.NeedFunc("(*framer).writeBytes"); fi != nil {
+		fi = writerDelegate(p, fi)
 		g := p.GraphOf(fi)
 		info := g.Info
 		facts := g.GuardFacts()
 		ok := false
+		// the value: the (last) byte-slice parameter
+		val := ""
+		for _, pf := range fi.Decl.Type.Params.List {
+			for _, pn := range pf.Names {
+				if isByteSlice(info.TypeOf(pf.Type)) {
+					val = pn.Name
+				}
+			}
+		}
 		ast.Inspect(fi.Decl.Body, func(x ast.Node) bool {
-			if c, isC := x.(*ast.CallExpr); isC && isCallTo(info, c, "(*framer).writeInt") && len(c.Args) == 1 {
-				if v, isK := constInt(info, c.Args[0]); isK && v == -1 {
-					f, _ := facts.Before(c)
-					if nv, known := f.KnownStr("p == nil"); known && nv {
+			if c, isC := x.(*ast.CallExpr); isC && (isCallTo(info, c, "(*framer).writeInt") && len(c.Args) == 1 || isCallTo(info, c, "appendInt") && len(c.Args) == 2) {
+				if v, isK := constInt(info, c.Args[len(c.Args)-1]); isK && v == -1 {
+					f, _ := facts.Before(p.stmtOf(c, fi))
+					if nv, known := f.KnownStr(val + " == nil"); known && nv {
 						ok = true
 					}
 				}
@@ -631,6 +648,46 @@ func c03r5(p *Program, r *Report) {
 		})
 		r.Check(ok, fi.Decl, "(*framer).writeBytes writes [int] -1 exactly for nil", "null <=> -1", "a nil value is not written as the [int] -1 null marker (or a non-nil one is)")
 	}
+}
+
+// writerDelegate: a framer writer whose whole body hands the buffer and its parameters to a package-level
+// function (f.buf = appendBytes(f.buf, p)) is judged on that function's body.
+func writerDelegate(p *Program, fi *FuncInfo) *FuncInfo {
+	for depth := 0; depth < 3; depth++ {
+		if fi.Decl.Body == nil || len(fi.Decl.Body.List) != 1 {
+			return fi
+		}
+		as, ok := fi.Decl.Body.List[0].(*ast.AssignStmt)
+		if !ok || len(as.Lhs) != 1 || len(as.Rhs) != 1 || !strings.HasSuffix(exprStr(as.Lhs[0]), ".buf") {
+			return fi
+		}
+		c, ok := ast.Unparen(as.Rhs[0]).(*ast.CallExpr)
+		if !ok || len(c.Args) < 2 || exprStr(c.Args[0]) != exprStr(as.Lhs[0]) {
+			return fi
+		}
+		fn := calleeOf(fi.Pkg.TypesInfo, c)
+		if fn == nil {
+			return fi
+		}
+		callee := p.FuncOf(fn)
+		if callee == nil || callee.Decl.Body == nil || callee.Pkg != p.Root || callee.Decl.Recv != nil {
+			return fi
+		}
+		for _, a := range c.Args[1:] {
+			if _, isId := ast.Unparen(a).(*ast.Ident); !isId {
+				return fi
+			}
+		}
+		fi = callee
+	}
+	return fi
+}
+
+// notationWriters: the writers of the specification's composite notations; a narrowing inside one of them is the
+// notation's own (named by the writer), not its caller's.
+var notationWriters = map[string]bool{
+	"(*framer).writeString": true, "(*framer).writeLongString": true, "(*framer).writeShortBytes": true, "(*framer).writeBytes": true,
+	"(*framer).writeStringList": true, "(*framer).writeStringMap": true, "(*framer).writeBytesMap": true,
 }
 
 func c03r7(p *Program, r *Report) {
@@ -681,6 +738,38 @@ func c03r7(p *Program, r *Report) {
 			} else if id, ok := ast.Unparen(measured).(*ast.Ident); ok {
 				if t := info.TypeOf(id); t != nil {
 					what = fi.Name + " parameter:" + t.String()
+				}
+				// a helper that every caller hands the same field (writeExecuteParamsV1(params.values, ..)) counts
+				// that field
+				if v, isVar := info.Uses[id].(*types.Var); isVar && fi.Obj != nil && neverAssigned(info, fi.Decl.Body, v) && !notationWriters[fi.Name] {
+					sig := fi.Obj.Type().(*types.Signature)
+					for i := 0; i < sig.Params().Len(); i++ {
+						if sig.Params().At(i) != v {
+							continue
+						}
+						fields := map[string]bool{}
+						for _, caller := range p.SortedFuncs() {
+							if caller.Decl.Body == nil || caller.Pkg != fi.Pkg {
+								continue
+							}
+							for _, cc := range callsIn(caller.Decl.Body) {
+								if fn := calleeOf(caller.Pkg.TypesInfo, cc); fn != nil && p.FuncOf(fn) == fi && i < len(cc.Args) {
+									name := "?"
+									if sel, isSel := ast.Unparen(cc.Args[i]).(*ast.SelectorExpr); isSel {
+										if fv := fieldOf(caller.Pkg.TypesInfo, sel); fv != nil {
+											name = typeNameOf(caller.Pkg.TypesInfo.TypeOf(sel.X)) + "." + fv.Name()
+										}
+									}
+									fields[name] = true
+								}
+							}
+						}
+						if len(fields) == 1 && !fields["?"] {
+							for k := range fields {
+								what = k
+							}
+						}
+					}
 				}
 			}
 			construct := "frame writer narrows the count of " + what + " to uint16"
